@@ -157,6 +157,9 @@ func propC16(r *kernel.Run) {
 			r.Violate("client-protos", "protocol-list-differs/"+protoDiffClass(gotP, want), "%s: ClientNextProtos()=%q (len %d), ClientHello offered (minus certificate preference) %q (len %d)", desc, truncList(gotP), len(gotP), truncList(want), len(want))
 		}
 		// the auth entries + extras are what the node handed to Dial
+		if len(want) < len(extras) {
+			r.Violate("client-protos", "extras-not-offered-in-order", "%s: the node handed %d extra protocols to Dial, the ClientHello offers only %d entries in all: %q", desc, len(extras), len(want), truncList(want))
+		}
 		tail := want[len(want)-len(extras):]
 		if !equalStrings(tail, extras) {
 			r.Violate("client-protos", "extras-not-offered-in-order", "%s: ClientHello tail %q", desc, tail)
